@@ -140,6 +140,8 @@ def stale_frames(kind, mux):
     import struct
     out = {
         "stale-exp-upload-other-object": struct.pack("<BHB4s", 0x43, other[0], other[1], b"\xde\xad\xbe\xef"),
+        "stale-exp-upload-other-sub": struct.pack("<BHB4s", 0x43, mux[0], other[1], b"\xde\xad\xbe\xef"),
+        "stale-exp-upload-other-index": struct.pack("<BHB4s", 0x43, other[0], mux[1], b"\xde\xad\xbe\xef"),
         "stale-seg-upload-init-other-object": struct.pack("<BHBL", 0x41, other[0], other[1], 9),
     }
     if kind in ("exp_ul", "seg_ul", "blk_ul"):
@@ -186,10 +188,14 @@ def run_case(ctx, c):
         if dist.startswith("specifier:"):
             scs = int(dist.split(":")[1])
             return [frame.replace(data=bytes([(frame.data[0] & 0x1F) | (scs << 5)]) + frame.data[1:])]
-        if dist == "mux-index":
-            return [frame.replace(data=frame.data[:1] + bytes([frame.data[1] ^ 0x01]) + frame.data[2:])]
-        if dist == "mux-sub":
-            return [frame.replace(data=frame.data[:3] + bytes([frame.data[3] ^ 0x01]) + frame.data[4:])]
+        if dist in ("mux-index", "mux-sub"):
+            # a response that belongs to another object: other multiplexer and, where the frame carries
+            # the value itself (expedited upload), that object's different data
+            d = bytearray(frame.data)
+            d[1 if dist == "mux-index" else 3] ^= 0x01
+            if d[0] >> 5 == 2 and d[0] & 0x02:
+                d[4:8] = bytes(b ^ 0xFF for b in d[4:8])
+            return [frame.replace(data=bytes(d))]
         if dist == "duplicated":
             return [frame, frame.replace()]
         if dist.startswith("stale-between:"):
